@@ -165,14 +165,14 @@ def flat_classes(t, out):
     return out
 
 
-def snapshot(w):
+def snapshot(w, relax_links=False):
     from glue.core.exceptions import IncompatibleAttribute
     # stale memoised masks are C05's subject (open findings there); this observer compares what the objects mean
     seams.clear_memo_caches()
     dc = w.dc
     out = {'data': [], 'groups': [], 'links': sorted(type(l).__name__ for l in dc.external_links)}
     groups = list(dc.subset_groups)
-    nlinks = len(dc.external_links)
+    nlinks = 2 if relax_links else len(dc.external_links)
     for d in dc:
         rec = {'label': d.label, 'shape': list(d.shape), 'comps': [], 'ext': [], 'masks': [], 'style': sorted(W.style_of(d.style).items()),
                'meta': None, 'coords': type(d.coords).__name__}
